@@ -27,14 +27,23 @@ def sh(cmd, **kw):
     return subprocess.run(cmd, shell=True, capture_output=True, text=True, **kw)
 
 
+IN_REPO = False
+
+
 def run_one(job):
     name, props, how, arg, tier = job
-    wt = os.path.join(ROOT, "wt-" + name)
     out = os.path.join(ROOT, "out-" + name)
-    sh(f"git -C /repo worktree remove --force {wt}")
-    shutil.rmtree(wt, ignore_errors=True)
-    r = sh(f"git -C /repo worktree add --detach {wt} HEAD")
-    res = {"name": name, "how": how, "arg": arg, "checks": {}}
+    if IN_REPO:
+        # the literal procedure for seeded changes: git -C /repo apply <file>, run, git -C /repo checkout -- .
+        wt = "/repo"
+        if sh("git -C /repo status --porcelain --untracked-files=no").stdout.strip():
+            return {"name": name, "how": how, "arg": arg, "checks": {}, "error": "/repo working tree is not clean"}
+    else:
+        wt = os.path.join(ROOT, "wt-" + name)
+        sh(f"git -C /repo worktree remove --force {wt}")
+        shutil.rmtree(wt, ignore_errors=True)
+        r = sh(f"git -C /repo worktree add --detach {wt} HEAD")
+    res = {"name": name, "how": how, "arg": arg, "checks": {}, "applied_to": wt, "repo_head": sh("git -C /repo rev-parse --short HEAD").stdout.strip(), "seed": int(os.environ.get("VERIF_SEED", "0"))}
     try:
         if how == "revert":
             for c in arg.split("+"):
@@ -65,8 +74,11 @@ def run_one(job):
             res["checks"][prop] = {"rc": rc, "violation_lines": txt.count("\nVIOLATION ") + txt.startswith("VIOLATION "), "kinds": kinds[:5], "wall": round(time.time() - t0, 1),
                                    "last": txt.strip().split("\n")[-1][:200]}
     finally:
-        sh(f"git -C /repo worktree remove --force {wt}")
-        shutil.rmtree(wt, ignore_errors=True)
+        if IN_REPO:
+            sh("git -C /repo checkout -- .")
+        else:
+            sh(f"git -C /repo worktree remove --force {wt}")
+            shutil.rmtree(wt, ignore_errors=True)
         shutil.rmtree(out, ignore_errors=True)
     return res
 
@@ -78,7 +90,12 @@ def main():
     ap.add_argument("--only", default="")
     ap.add_argument("--seeded", action="store_true")
     ap.add_argument("--also", default="", help="comma list of extra properties to run for every job")
+    ap.add_argument("--in-repo", action="store_true", help="apply to /repo itself (sequential) instead of a scratch worktree")
     a = ap.parse_args()
+    global IN_REPO
+    IN_REPO = a.in_repo
+    if IN_REPO:
+        a.jobs = 1
     os.makedirs(ROOT, exist_ok=True)
     jobs = []
     if a.seeded:
@@ -112,6 +129,18 @@ def main():
     with open(outp, "w") as f:
         json.dump([old[k] for k in sorted(old)], f, indent=1)
         f.write("\n")
+    if a.seeded:
+        for r in results:
+            mp = os.path.join(VERIF, "seeded", r["name"], "meta.json")
+            with open(mp) as f:
+                meta = json.load(f)
+            runs = meta.setdefault("checks_run", {})
+            for pr, c in r["checks"].items():
+                runs[f"{pr} {a.tier} seed={r.get('seed', 0)}" + (" (applied to /repo)" if IN_REPO else " (scratch worktree)")] = {
+                    "exit": c["rc"], "fired": c["rc"] == 1, "witness_kinds": [k for k, _ in c["kinds"][:3]], "repo_head": r.get("repo_head"), "last_line": c["last"]}
+            with open(mp, "w") as f:
+                json.dump(meta, f, indent=1)
+                f.write("\n")
     print("| change | check | exit | fired | first witness kinds | wall s |\n|---|---|---|---|---|---|")
     for r in results:
         if r.get("error"):
